@@ -46,13 +46,44 @@ def outcome(fn, *a, **k):
         return ("escape", type(e).__name__)
 
 
+class _Inline:
+    """Awaitable that runs `fn(*args)` inline at the await point (an executor with no concurrency)."""
+
+    def __init__(self, fn, args):  # type: ignore[no-untyped-def]
+        self.fn, self.args = fn, args
+
+    def __await__(self):  # type: ignore[no-untyped-def]
+        if False:  # noqa: SIM108 - makes this a generator
+            yield None
+        return self.fn(*self.args)
+
+
+class InlineLoop:
+    """Stub event loop: `run_in_executor` executes the callable inline when awaited."""
+
+    def run_in_executor(self, executor, fn, *args):  # type: ignore[no-untyped-def]  # noqa: ARG002
+        return _Inline(fn, args)
+
+
+STUB_LOOP = (
+    "asyncio.get_running_loop() := stub loop whose run_in_executor(fn, *args) runs fn inline at the await point "
+    "(the thread-pool hop of FileSystemLoader/PackageLoader is not modelled; results and exceptions are the callable's own)"
+)
+
+
 def drive(coro):
     """Run a coroutine that never really suspends (no event loop needed)."""
+    import asyncio
+
+    saved = asyncio.get_running_loop
+    asyncio.get_running_loop = InlineLoop  # type: ignore[assignment]
     try:
         while True:
             coro.send(None)
     except StopIteration as e:
         return e.value
+    finally:
+        asyncio.get_running_loop = saved  # type: ignore[assignment]
 
 
 def in_alpha(s: str, alpha: str) -> bool:
